@@ -292,7 +292,7 @@ def run_case(a):
     try:
         from symx.par import par_explore
         outs, ex, total, dt = par_explore(harness(d, tree_type, truncated), lambda ps: analyse(ps, d, tree_type, truncated),
-                                          nprocs=16, frontier=32, tlimit=tlimit, max_paths=400000)
+                                          nprocs=16, frontier=64, tlimit=tlimit, max_paths=4000000, chunk=200)
         agg = {'d': d, 'type': tree_type, 't': truncated, 'paths': total, 'exhaustive': ex, 'fails': [], 'nq': 0, 'havoc_pc': 0,
                'havoc_out': 0, 'structures': 0, 'unsupported': 0, 'secs': time.time() - t0}
         for o in outs:
@@ -385,13 +385,14 @@ def run(tier, seed):
         tl = 240
     else:
         cases = [(d, t, tr) for d in (2, 3, 4) for t in ('center', 'direct', 'regular') for tr in range(1, d + 1)]
-        cases += [(5, 'center', 4), (5, 'direct', 4), (5, 'regular', 2)]
-        tl = 700
+        cases += [(5, t, tr) for t in ('center', 'direct') for tr in (1, 2, 3, 4)] + [(6, 'center', 5)]
+        tl = 900
     cases = [c for c in cases if c[2] >= 1]
     ck.bounds = {'columns d': sorted({c[0] for c in cases}), 'vine types': ['center', 'direct', 'regular'],
                  'truncation': 'see samples', 'tau': 'any symmetric matrix with entries in [-1,1], ties allowed'}
     ck.outside = ['that the first-level tau matrix is the Kendall tau of the data (pandas corr(method="kendall"))',
-                  'd = 6, 7 (path counts grow super-exponentially; not enumerated)']
+                  'regular vines with d >= 5 (the first tree alone has more than 2.5e5 order types of the 10 pairwise |tau|: measured, not exhaustible), '
+                  'direct vines with d >= 6 (> 1e5 paths in 400 s, not exhausted), d = 7']
     ck.assumptions = ['stub contracts above']
     findings_havoc = []
     for c in cases:
